@@ -50,7 +50,9 @@ Next ==
   /\ LET e == Rec[l] IN
      CASE e.ev = "reset" -> m' = St!Run(St!InitS, [k \in 1..Len(e.init) |-> St!OpNewArg(e.init[k])])
        [] e.ev = "u" -> LET r == St!Step(m, OpOf(e)) IN Judge(e, r.st, r.res) /\ m' = r.st
-       [] e.ev = "x" -> m' = St!Step(m, OpOf(e)).st      \* an update whose projection is not judged here (C14 runs)
+       [] e.ev = "x" -> LET r == St!Step(m, OpOf(e)) IN          \* an update whose projection is not logged (wide histories, C14 runs)
+                        /\ m' = r.st
+                        /\ ("res" \in DOMAIN e) => Report("C12:result", e.res = r.res)
        [] e.ev = "rt" -> /\ m' = m          \* C14: AspartixWriter::write_framework then AspartixReader::read
                          /\ LET b == e.back
                                 ids == St!LiveIds(m)
